@@ -19,6 +19,7 @@ def run(ctx):
     ctx.tlc_mc(fam, "QueueWake", "QueueWake_MC.cfg", workers=4, coverage=ctx.thorough)
     ctx.tlc_mc(fam, "QueueWake", "QueueWake_MC_bug.cfg", workers=1, expect_violation="NoStranded")
     ctx.tlc_mc(fam, "QueueWake", "QueueWake_MC_bug_sigfirst.cfg", workers=1, expect_violation="NoStranded")
+    ctx.tlc_mc(fam, "QueueWake", "QueueWake_MC_bug_prod.cfg", workers=1, expect_violation="NoStrandedProducer")
     ctx.tlc_mc(fam, "QueueWake", "QueueWake_MC_live.cfg", workers=4)
     ctx.tlc_mc(fam, "PriWake", "PriWake_MC.cfg", workers=4, coverage=ctx.thorough)
     ctx.tlc_mc(fam, "PriWake", "PriWake_MC_bug.cfg", workers=1, expect_violation="WakeInv")
@@ -27,14 +28,14 @@ def run(ctx):
         ctx.tlc_mc(fam, "QueueWake", "QueueWake_MC_live_big.cfg", workers=16, timeout=3000, heap="16g")
         ctx.tlc_mc(fam, "PriWake", "PriWake_MC_big.cfg", workers=16, timeout=3000)
     pdir, plans = ctx.tlc_plans(fam, "QueueWake_Gen", "QueueWake_Gen.cfg", num=ctx.q(120, 1800), depth=18)
-    ppdir, pplans = ctx.tlc_plans(fam, "PriWake_Gen", "PriWake_Gen.cfg", num=ctx.q(120, 1200), depth=22,
+    ppdir, pplans = ctx.tlc_plans(fam, "PriWake_Gen", "PriWake_Gen.cfg", num=ctx.q(80, 1200), depth=22,
                                   sub="pplans", seed_off=1)
     binary = ctx.go_build("c13")
     ctx.harness(binary, ["-plans", pdir, "-pplans", ppdir, "-out", ctx.path("wake.ndjson"),
                          "-pout", ctx.path("priwake.ndjson"), "-stress", ctx.path("stress.ndjson"),
                          "-pstress", ctx.path("pstress.ndjson"), "-seed", ctx.seed,
-                         "-rand", ctx.q(60, 700), "-prand", ctx.q(50, 500), "-nstress", ctx.q(4, 100),
-                         "-race", ctx.q(630, 1600), "-rounds", "enter,ctl,prod,enter,ctl,take,enter,ctl,prod", "-prace", ctx.q(100, 1000), "-npstress", ctx.q(60, 600)],
+                         "-rand", ctx.q(60, 700), "-prand", ctx.q(35, 500), "-nstress", ctx.q(4, 100),
+                         "-race", ctx.q(560, 1600), "-rounds", "enter,ctl,prod,enter,take,enter,ctl,prod,enter", "-prace", ctx.q(70, 1000), "-npstress", ctx.q(60, 600)],
                 traces=[ctx.path("wake.ndjson"), ctx.path("priwake.ndjson"), ctx.path("stress.ndjson"),
                         ctx.path("pstress.ndjson")])
     wake = _load(ctx, "wake.ndjson")
